@@ -982,21 +982,21 @@ func (e *c06Env) step(c *Ctx, regs []*c06Reg, prog string) {
 			key = "C06/" + dg
 			c.Count("defect-condition:" + dg)
 		}
+		if d != "" && os.Getenv("VERIF_DEBUG") != "" && strings.HasPrefix(key, "C06/precision") {
+			fmt.Fprintln(os.Stderr, "DEBUG", args, d, "relin", op.relin, "sub", op.sub, "bIsPt", op.bIsPt, "n", op.n, "dy", op.dy.Float64(), "\n  want", want[:min(4, len(want))], "\n  have", have[:min(4, len(have))], "\n  A", A.want[:min(4, len(A.want))], "eb", eb, "veclen", len(op.vvals), "ai,bi,oi", ai, bi, oi, "\n  B", bWant[:min(4, len(bWant))], "\n  oldO", oldO[:min(4, len(oldO))])
+		}
 		c.Probe("program_precision", args, key, d)
 	} else {
+		// the message no longer fits Q_level/scale (or degree > 2): nothing to compare, restart the register
 		c.Count("precision-skipped-overflow")
+		eb = math.Inf(1)
 	}
 	// ---- commit
 	out := &c06Reg{ct: res, want: want, eb: eb}
-	if d != "" && have != nil {
-		// isolate the defect: continue from what the ciphertext really contains
-		out.want, out.eb = have, noise
-		for _, x := range have {
-			if cmplx.IsNaN(x) || cmplx.IsInf(x) || cmplx.Abs(x) > 1e6 {
-				out = e.fresh(c, e.params.MaxLevel(), c.rng.Intn(e.logMax+1), e.params.DefaultScale())
-				break
-			}
-		}
+	if d != "" {
+		// isolate the defect: a register that failed the probe may hold a structurally broken
+		// ciphertext (wrong dimensions, inconsistent limbs): restart it
+		out = e.fresh(c, e.params.MaxLevel(), c.rng.Intn(e.logMax+1), e.params.DefaultScale())
 	}
 	if mw > 64 || !(out.eb <= 1e-2) {
 		out = e.fresh(c, e.params.MaxLevel(), c.rng.Intn(e.logMax+1), e.params.DefaultScale())
@@ -1054,15 +1054,27 @@ func (e *c06Env) diag(op *c06Op, am, bm, om c06M) string {
 			return "mtasc-receiver-level-kept"
 		}
 		if om.degree > am.degree {
-			return "mtasc-receiver-degree-cut"
+			return "mta-receiver-degree-cut"
+		}
+	case "mtavec":
+		if om.degree > am.degree {
+			return "mta-receiver-degree-cut"
 		}
 	case "scaleup":
 		if !op.dy.Value.IsInt() {
 			return "scaleup-truncates-scale"
 		}
 	case "setscale":
-		if r, isInt := c06Ratio(op.dy, am.scale); r >= 2 && !isInt {
-			return "setscale-noninteger-ratio-ge2"
+		if r, isInt := c06Ratio(op.dy, am.scale); !isInt {
+			if r >= 2 {
+				return "setscale-noninteger-ratio-ge2"
+			}
+			// RescaleTo works on the recorded scale old*q_l, not on the true one target*q_l:
+			// for old/q_{l-1} >= target/2 it divides by more primes than the constant was scaled by
+			lc := e.params.LevelsConsumedPerRescaling()
+			if am.level-lc >= 0 && r*float64(e.params.Q()[am.level-lc]) <= 2.0000001 {
+				return "setscale-ratio-below-2-over-q"
+			}
 		}
 	}
 	if (op.kind == "mtaelt" || op.kind == "mtasc" || op.kind == "mtavec") && om.logSlots > am.logSlots && (op.kind != "mtaelt" || om.logSlots > bm.logSlots) {
